@@ -43,10 +43,49 @@ COMMON = 'In every simulated run -- 1-4 baton-passed caller threads pre-empted a
 TRUSTED = "Trusted: JAX, XLA:CPU, equinox, CPython; jit-compiled calls are scheduling-atomic; fixed closed-form inputs and literal keys (no input search)."
 
 
+MODEL_COMMON = (
+    "Second oracle (reference models, audit/models.py): the operations below evaluate an API program next to the small executable model "
+    "the property names for it and must agree with it to rounding -- first in the empty history (one operation in a fresh interpreter), "
+    "then again inside every simulated history; a disagreement in the empty history is reported with a one-operation replay file. "
+    "Inputs are fixed closed-form arrays: the relations decide the property for the catalogue's programs, configurations and operation "
+    "sequences, not over all inputs. Models: "
+)
+
+MODELS = {
+    "C01": "an independent numpy implementation of exp(symbol(k) dt) for Advection, Diffusion (scalar, diagonal, full matrix), AdvectionDiffusion, Dispersion, HyperDiffusion and GeneralLinearStepper on band-limited states that excite the highest retained mode of every axis (1-3 D, odd and even N, dt = 0.05 and 7); 4 calls with dt = one call with 4 dt for every linear class; a call with -dt undoes a call with dt for Advection, Dispersion, Wave.",
+    "C02": "observed convergence order of ETDRK1-4 under dt-halving against an independent integrating-factor RK4 of the same semi-discrete system, for a real, two complex and a purely imaginary linear symbol; ETDRK0 = exp(L dt); successive refinements of the KdV, Burgers and generic convection steppers contract like 2^p (float64 session).",
+    "C03": None,
+    "C04": "ifft(fft(u)) = u; make_grid = j L / N; for both indexing options wavenumbers and transforms have matching shapes.",
+    "C05": "derivative of orders 1-3 of sin(k.x) with the highest retained mode vs the analytic partial derivatives; Poisson solution vs the analytic zero-mean solution; two domain extents.",
+    "C06": "filter_jit / jit(lambda) / vmap / rollout / jit(rollout) / vmap(rollout) vs rollout(vmap) against eager one-at-a-time evaluation for fourteen stepper classes; batches of steppers built with filter_vmap over a parameter (Burgers, KS, FisherKPP incl. 0, AllenCahn incl. 0, KdV incl. 0) vs steppers built one at a time; stacked RepeatedSteppers under filter_vmap / filter_jit, also after tree_at of the inner steppers.",
+    "C07": "forward-mode derivatives w.r.t. diffusivity (also at 0), convection scale, dt, reaction rate (also at 0), zeroth-order linear coefficient (also at 0), velocity, dispersivity, generic coefficients and the state (also through rollouts), orders 1-4, vs central finite differences; reverse mode vs forward mode (adjoint identity); Jacobian of a linear stepper = the stepper (float64 session).",
+    "C08": None,
+    "C09": "spatial mean after each of four successive steps vs the initial mean for Advection, Diffusion, Dispersion, HyperDiffusion, Burgers (conservative, 1D, single-channel), KdV, conservative KS, Cahn-Hilliard, 2D vorticity and 3D velocity Navier-Stokes (orders 1, 2, 4; N = 16, 15, 12 / 8, 9, 12 / 6); work <u, N(u)> = 0 of the 1D convection term (both forms; N = 12, 15, 16, 18, 24) and energy / enstrophy production = 0 of the 2D vorticity convection on band-truncated states; spatially constant equilibria are fixed points.",
+    "C10": "spectral divergence of make_incompressible(v) and Leray(v) = 0, both idempotent, both agree (2-3 D, odd and even N, states with the highest retained modes); the 3D Navier-Stokes and Kolmogorov velocity steppers keep a solenoidal state solenoidal over three successive steps (orders 1, 2, 4).",
+    "C11": "L2 norm after each of three successive steps <= norm before, for Advection, Diffusion, AdvectionDiffusion, Dispersion, HyperDiffusion and a generic dissipative-dispersive stepper on broadband states with Nyquist content, dt = 0.05, 3, 400, 1-3 D; = on odd grids for Advection and Dispersion.",
+    "C12": "from rest, n steps of the 2D vorticity and 3D velocity Kolmogorov steppers vs the laminar solution f (exp(sigma t) - 1) / sigma of the documented forced equation (L = 2 pi, 3, 1; odd and even N; several k, gamma; orders 1-4); ForcedStepper(u, f) = step(u + dt f); zero forcing = unforced stepper.",
+    "C13": "GeneralLinearStepper = NormalizedLinearStepper(alpha_j = a_j dt / L^j) = DifficultyLinearStepper(reduced); the same for the convection family; another (L, dt, a) with the same non-dimensional groups; AdvectionDiffusion / Burgers / Diffusion / Dispersion / HyperDiffusion = the generic stepper with the equivalent coefficient list; normalize/denormalize and reduce/extract are mutual inverses and follow alpha_j = a_j dt / L^j.",
+    "C14": "rollout (n = 0, 1, 2, 5; with and without initial state; constant and per-step aux; pytree state with pytree aux) and repeat vs the naive Python loop; stack_sub_trajectories vs explicit windows (arrays and pytrees); RepeatedStepper(s, n) vs n applications and dt = n dt (n = 1, 2, 3; four inner steppers); nested RepeatedSteppers, also inside ForcedStepper and rollout; RepeatedStepper after tree_at of the inner stepper / of num_sub_steps, serialise-deserialise through an in-memory file, flatten-unflatten, partition-combine, filter_jit -- vs n applications of its current inner stepper.",
+    "C15": "map_between_resolutions of a band-limited state vs the same function sampled on the finer grid; up-then-down = identity; the mean is preserved by every resolution change; FourierInterpolator reproduces the state at its own grid points.",
+    "C16": "Parseval (fourier_* = spatial metric), zero for identical inputs, symmetry, L^D scaling, additivity over channels and over disjoint bands, homogeneity, scale-freeness of nRMSE, correlation = +-1 for proportional fields.",
+    "C17": "amplitude spectrum of a cos(k.x): amplitude a in bin round(|k|), zero elsewhere (1-3 D, odd and even N, highest retained mode, mixed signs); 1D Parseval of the summed power spectrum; channels independent.",
+    "C18": "shape (1, N, ..., N), finiteness, same key twice, zero mean, unit std, unit maximum, scale factor, clamping limits reached, mean inside the requested offset range, Fourier content confined to the cutoff, one channel per sub-generator, function form = sampled form (eleven generator configurations, two keys, 1-3 D).",
+    "C19": None,
+    "C20": "for four stepper classes, a correctly shaped state is accepted (same shape, same values) and four malformed states (extra channel, batch axis, missing channel axis, wrong points per axis) raise ValueError after each of: nothing, tree_map, tree_at, partition-combine, flatten-unflatten, filter_jit, RepeatedStepper with 1 and 3 sub-steps, a rebuilt RepeatedStepper, vmap; every rejection operation of the catalogue must raise ValueError in the empty history too.",
+}
+
+
 def claim(scope, implied, not_examined, note):
     return dict(
         text=f"Seeded exploration (deterministic simulation) of {scope}. {COMMON} {implied} Not examined by this technique family: {not_examined}",
         note=f"{note} {TRUSTED}",
+    )
+
+
+def invariant_claim(what):
+    return dict(
+        text=f"Seeded exploration (deterministic simulation) with an invariant oracle: {what} {COMMON} Unlike the other properties this one does not imply determinacy, so the comparison with the isolated reference is used here only to notice that a history changed something; a violation is reported only when the invariant itself fails (ModelMismatch), in the empty history or in a simulated one. Not examined: the invariant over all states, orders, dt and resolutions (inputs).",
+        note=f"Decides the invariant on the catalogue's fixed states and configurations, in the empty history and under histories / interleavings / abandoned calls / session switches. {TRUSTED}",
     )
 
 
@@ -60,7 +99,7 @@ CLAIMED = {
     "C02": claim(
         "the ETDRK integrators of order 0-4 called directly (two dt, two contour resolutions) and constructed through every nonlinear stepper class (orders 1-4 via option twins)",
         "C02 equates the coefficients and the step with the order-p scheme; coefficients or steps that differ between two executions with identical arguments cannot both do so.",
-        "the agreement of the coefficients with the phi-functions, the stage formulas and the convergence order (numerical analysis over inputs); the suspected `.real` defect.",
+        "the agreement of the coefficients with the phi-functions, the stage formulas and the phi-function coefficients and stage formulas one by one (the convergence-order model below decides the scheme's order, and found the `.real` defect that commit d3c97cf repairs).",
         "Decides only that coefficient construction and stepping are free of history / interleaving / crash / session dependence (a necessary condition of C02).",
     ),
     "C03": claim(
@@ -72,7 +111,7 @@ CLAIMED = {
     "C04": claim(
         "make_grid (all flags, both indexings), wavenumber arrays, FFT pairs, scaling arrays, filter masks and Fourier-coefficient extraction, for three domain extents and two resolutions per dimension",
         "C04 states these conventions as identities; an array that depends on what was requested before cannot satisfy them for every call.",
-        "the mutual consistency of the conventions themselves, mode by mode (input enumeration); the suspected `indexing='xy'` defect.",
+        "the mutual consistency of the conventions themselves, mode by mode (input enumeration).",
         "Decides only determinacy of the grid / FFT helpers under histories, interleavings, crashes and session switches (a necessary condition of C04).",
     ),
     "C05": claim(
@@ -99,10 +138,13 @@ CLAIMED = {
         "the symmetry relations themselves (shifts, axis permutations, embeddings) -- metamorphic testing over inputs.",
         "Decides only determinacy of a step (a necessary condition of C08; the same corollary as for C06, on the eager form).",
     ),
+    "C09": invariant_claim("after every completed step of a history of steps the conserved quantity is compared with its initial value."),
+    "C10": invariant_claim("after every completed projection or step the spectral divergence is compared with zero, and the projections with each other."),
+    "C11": invariant_claim("after every completed step the L2 norm is compared with the norm before the step."),
     "C12": claim(
         "the Kolmogorov steppers and the generic vorticity stepper with injection (several forced modes and scales on the same grid), their forced nonlinear functions, and ForcedStepper with several forcings",
         "C12 says exactly the documented field is injected at every step; a forcing that depends on which stepper was built before or concurrently is another field.",
-        "the value of the injected field against the documented formula and the laminar solution (the two suspected defects are of that kind).",
+        "the value of the injected field against the documented formula and the laminar solution (decided by the second oracle below, which found the two injection defects that commits 0b35ac6 and ea21c86 repair).",
         "Decides only history / interleaving / crash independence of the forcing terms (a necessary condition of C12).",
     ),
     "C13": claim(
@@ -163,7 +205,10 @@ def main():
     for pid in ids:
         if pid not in CLAIMED:
             continue
-        c = CLAIMED[pid]
+        c = dict(CLAIMED[pid])
+        if MODELS.get(pid):
+            c["text"] = c["text"] + " " + MODEL_COMMON + MODELS[pid]
+            c["text"] = c["text"].replace("Not examined by this technique family:", "Not examined by the first oracle:")
         checks.append(
             {
                 "property_id": pid,
@@ -174,7 +219,7 @@ def main():
                 "engine": "exponax-dst",
                 "level_claimed": {"category": "exploration", "text": c["text"], "design_ref": "DESIGN.md §4, §6"},
                 "level_note": c["note"],
-                "technique": "deterministic simulation with fault injection: seeded baton-passing scheduler over real caller threads with source-line pre-emption, seeded API histories, ambient fault injection (clock, global RNGs, gc, cache eviction, precision-session switches) and injected crashes with retry; crash points and single pre-emption points additionally enumerated over executed source lines; oracle = isolated fresh-interpreter reference; seed + minimised schedule as replay file",
+                "technique": "deterministic simulation with fault injection: seeded baton-passing scheduler over real caller threads with source-line pre-emption, seeded API histories, ambient fault injection (clock, global RNGs, gc, cache eviction, precision-session switches) and injected crashes with retry; crash points and single pre-emption points additionally enumerated over executed source lines; oracles = isolated fresh-interpreter reference of the same operation, and executable reference models named by the property (audit/models.py) evaluated in the empty history and in every simulated history; seed + minimised schedule (or the single operation) as replay file",
             }
         )
     manifest = {
